@@ -13,6 +13,12 @@ use crate::{
     sched::{install_h1, uninstall_h1},
 };
 
+#[derive(serde::Serialize, serde::Deserialize)]
+pub enum BinShip {
+    Tx(remoc::rch::bin::Sender),
+    Rx(remoc::rch::bin::Receiver),
+}
+
 #[derive(Clone, Copy, Debug, PartialEq, Eq)]
 pub enum Event {
     SenderDrop,
@@ -26,6 +32,9 @@ pub enum Event {
 #[derive(Clone, Copy, Debug, PartialEq, Eq)]
 pub enum Kind {
     Port,
+    /// a raw port pair whose two ends sit on two different connections of a third endpoint, which forwards
+    /// (an `rch::bin` channel both halves of which were sent away)
+    PortForwarded,
     Base,
     Lr,
     Mpsc,
@@ -41,12 +50,12 @@ pub struct Case {
 /// All (kind, event, n, position) tuples.
 pub fn enumerate() -> Vec<Case> {
     let mut v = Vec::new();
-    for kind in [Kind::Port, Kind::Base, Kind::Lr, Kind::Mpsc] {
+    for kind in [Kind::Port, Kind::PortForwarded, Kind::Base, Kind::Lr, Kind::Mpsc] {
         for event in [Event::SenderDrop, Event::SenderDropMidMessage, Event::ReceiverClose, Event::ReceiverDrop, Event::ConnCut] {
-            if event == Event::SenderDropMidMessage && kind != Kind::Port {
+            if event == Event::SenderDropMidMessage && !matches!(kind, Kind::Port | Kind::PortForwarded) {
                 continue;
             }
-            if event == Event::ConnCut && kind == Kind::Port {
+            if event == Event::ConnCut && matches!(kind, Kind::Port | Kind::PortForwarded) {
                 continue; // port-level cuts are C06's subject
             }
             for n_msgs in [1usize, 2, 4, 8] {
@@ -107,11 +116,37 @@ pub fn run_case(run: u64, seed: u64, case: &Case) -> RunOut {
         let mut keep: Vec<Box<dyn std::any::Any + Send>> = Vec::new();
         let net;
         match kind {
-            Kind::Port => {
-                let Conn { net: n, a, mut b, sched } = connect_pair(cfg_a.clone(), cfg_b.clone(), netcfg.clone(), &mut rng).await?;
-                net = n;
-                let ((mut tx, rx_a), (mut tx_b, mut rx)) = open_port(&a.client, &mut b.listener).await?;
-                keep.push(Box::new((rx_a, a, b, sched)));
+            Kind::Port | Kind::PortForwarded => {
+                let (mut tx, mut rx, mut tx_b): (remoc::chmux::Sender, remoc::chmux::Receiver, Option<remoc::chmux::Sender>);
+                if kind == Kind::Port {
+                    let Conn { net: n, a, mut b, sched } = connect_pair(cfg_a.clone(), cfg_b.clone(), netcfg.clone(), &mut rng).await?;
+                    net = n;
+                    let ((tx1, rx_a), (tx_b1, rx1)) = open_port(&a.client, &mut b.listener).await?;
+                    keep.push(Box::new((rx_a, a, b, sched)));
+                    (tx, rx, tx_b) = (tx1, rx1, Some(tx_b1));
+                } else {
+                    // F creates the channel, its sender goes to A over one connection, its receiver to B over another
+                    let (n1, f1, a1, s1) = connect_rch_hetero::<BinShip, (), (), BinShip>(rch_cfg(&mut rng), rch_cfg(&mut rng), draw_netcfg(&mut rng), &mut rng).await?;
+                    let (n2, f2, b2, s2) = connect_rch_hetero::<BinShip, (), (), BinShip>(rch_cfg(&mut rng), rch_cfg(&mut rng), netcfg.clone(), &mut rng).await?;
+                    let (btx, brx) = remoc::rch::bin::channel();
+                    let RchEnd { tx: mut f1tx, rx: f1rx, conn: f1c } = f1;
+                    let RchEnd { tx: a1tx, rx: mut a1rx, conn: a1c } = a1;
+                    let RchEnd { tx: mut f2tx, rx: f2rx, conn: f2c } = f2;
+                    let RchEnd { tx: b2tx, rx: mut b2rx, conn: b2c } = b2;
+                    let Some((s, r)) = or_quiescent(async { tokio::join!(f1tx.send(BinShip::Tx(btx)), a1rx.recv()) }).await else { return Err("shipping the bin sender is pending".into()) };
+                    s.map_err(|e| format!("shipping the bin sender: {e}"))?;
+                    let Ok(Some(BinShip::Tx(atx))) = r else { return Err("bin sender did not arrive".into()) };
+                    let Some((s, r)) = or_quiescent(async { tokio::join!(f2tx.send(BinShip::Rx(brx)), b2rx.recv()) }).await else { return Err("shipping the bin receiver is pending".into()) };
+                    s.map_err(|e| format!("shipping the bin receiver: {e}"))?;
+                    let Ok(Some(BinShip::Rx(brx))) = r else { return Err("bin receiver did not arrive".into()) };
+                    let Some((t, r)) = or_quiescent(async { tokio::join!(atx.into_inner(), brx.into_inner()) }).await else { return Err("connecting the forwarded bin channel is pending".into()) };
+                    tx = t.map_err(|e| format!("bin sender connect: {e}"))?;
+                    rx = r.map_err(|e| format!("bin receiver connect: {e}"))?;
+                    rx.set_max_data_size(4096);
+                    tx_b = None;
+                    net = n2;
+                    keep.push(Box::new((n1, f1tx, f1rx, f1c, a1tx, a1rx, a1c, s1, f2tx, f2rx, f2c, b2tx, b2rx, b2c, s2)));
+                }
                 let net_r = net.clone();
                 let closed = tx.closed();
                 let h2 = hist.clone();
@@ -172,7 +207,9 @@ pub fn run_case(run: u64, seed: u64, case: &Case) -> RunOut {
                                 // clog this endpoint's path to the transport, cancel close() while it waits, retry
                                 net_r.set_starved(crate::simnet::Dir::BA, true);
                                 for _ in 0..6 {
-                                    let _ = tx_b.try_send(&Bytes::from_static(b"x"));
+                                    if let Some(t) = tx_b.as_mut() {
+                                        let _ = t.try_send(&Bytes::from_static(b"x"));
+                                    }
                                     tokio::task::yield_now().await;
                                 }
                                 let r = or_quiescent(crate::sched::CancelAt::new(rx.close(), 1 + (got as u32 % 3))).await;
@@ -562,7 +599,12 @@ pub fn run_case(run: u64, seed: u64, case: &Case) -> RunOut {
                 }
                 for e in &h.send_errs {
                     let graceful = e.contains("gracefully: true") || (e.contains("closed=true") && kind != Kind::Mpsc);
-                    if graceful {
+                    if graceful && kind == Kind::PortForwarded {
+                        // The forwarder learns of "closed or dropped" downstream through one signal, closes its own
+                        // receiver (gracefully) and drops it on the next failed send; the original sender's
+                        // counterpart really was closed first and a graceful close is sticky. Recorded, not judged.
+                        out.count("forwarded_drop_seen_as_graceful_close", 1);
+                    } else if graceful {
                         bad.push(("C11:drop-misclassified".into(), format!("{name}: the receiver was dropped, send failed with {e} (classified as graceful close)")));
                     }
                 }
